@@ -4,7 +4,9 @@ Fault enumeration: for each base scenario x breaker-carrying entry point, a clea
 the injection points (callback invocations, suspension points, attempts); then one run per
 (point, kind).  Oracles: (b) between an admitting allow() and the end of the call the breaker
 saw at least one record_success/failure/cancel; (a) black box: the call was admitted as the
-half-open probe, and after it ended and recovery_timeout_s elapsed again, allow() admits.
+half-open probe, and after it ended and recovery_timeout_s elapsed again, allow() admits - and the
+breaker, driven directly through one more outage (close, threshold failures, timeout), admits a
+probe again (a slot still marked taken inside a closed breaker only shows then).
 """
 
 from __future__ import annotations
@@ -16,7 +18,7 @@ from ..oracles import run_ending
 from ..view import View
 from . import common
 
-from redress import CircuitBreaker  # noqa: E402
+from redress import CircuitBreaker, ErrorClass  # noqa: E402
 
 JOBS = {"quick": 4, "thorough": 16}
 ENTRIES = ["policy.call", "policy.execute", "policy.ctx", "apolicy.call", "apolicy.execute", "apolicy.ctx"]
@@ -123,6 +125,38 @@ def judge(ctx, sc, entry, recs, h, world, stats):
             )
         else:
             ctx.inc("probe_released_ok")
+            why = second_outage(h.breaker, world, sc["cfg"]["breaker"], d)
+            ctx.inc("second_outage_continuations")
+            if why:
+                ctx.viol(
+                    "probe-slot-leaked-in-next-outage:" + label,
+                    f"[{entry}] call admitted as the half-open probe ended ({label}); the breaker then went through one more outage driven directly (close, {sc['cfg']['breaker']['threshold']} failures, recovery_timeout_s + 1 s): {why}",
+                    common.payload(sc, entry, 0),
+                )
+
+
+def second_outage(br, world, bcfg, d):
+    """Black box: a slot that looks free now may still be marked taken inside; it shows in the next outage."""
+    with env.active(world):
+        if d.state.value == "half_open":
+            CircuitBreaker.record_success(br)  # our own continuation probe
+        if CircuitBreaker.allow(br).state.value != "closed":
+            return "after the continuation probe succeeded the breaker is not closed"
+        CircuitBreaker.record_success(br)
+        for _ in range(bcfg["threshold"]):
+            CircuitBreaker.record_failure(br, ErrorClass.TRANSIENT)
+        d1 = CircuitBreaker.allow(br)
+        if d1.allowed:
+            return None  # did not open: C06's business, not a leak
+        world.t += bcfg["recovery"] + 1.0
+        d2 = CircuitBreaker.allow(br)
+        if not d2.allowed:
+            return f"allow() after the second recovery timeout rejects (state {d2.state.value}) although nothing is in flight"
+        CircuitBreaker.record_success(br)
+        d3 = CircuitBreaker.allow(br)
+        if not d3.allowed:
+            return f"allow() after the second probe succeeded rejects (state {d3.state.value})"
+    return None
 
 
 def run_one(ctx, sc, entry, stats, manual=True):
@@ -209,6 +243,7 @@ def work(ctx, tier):
 def conclude(ctx):
     floors = {
         "probe_runs": (ctx.cnt["probe_runs"], 500),
+        "second_outage_continuations": (ctx.cnt["second_outage_continuations"], 400),
         "settle:callback-raised": (ctx.cnt["settle:callback-raised"], 300),
         "settle:thrown": (ctx.cnt["settle:thrown"], 300),
         "settle:op-raised": (ctx.cnt["settle:op-raised"], 200),
@@ -252,5 +287,9 @@ def replay(data):
     print("    after recovery_timeout_s + 100 s: allow() ->", d)
     if admitted and admitted[0][2] == "half_open" and not d.allowed:
         bad = True
+    elif admitted and admitted[0][2] == "half_open":
+        why = second_outage(h.breaker, world, sc["cfg"]["breaker"], d)
+        print("    one more outage driven directly:", why or "recovers")
+        bad = bad or bool(why)
     print("replay:", "violation reproduced" if bad else "no violation on this tree")
     return 1 if bad else 0
